@@ -6,7 +6,7 @@ set -u
 cd "$(dirname "$0")/.."
 [ -z "$(git -C /repo status --porcelain)" ] || { echo "/repo is not clean"; exit 2; }
 # the evidence files describe the unchanged tree: keep them aside while checks run against changed trees
-keep=$(mktemp -d /tmp/evidence.keep.XXXXXX); cp -r evidence/. "$keep"/; trap 'cp -r "$keep"/. evidence/; rm -rf "$keep"; git -C /repo checkout -- . 2>/dev/null' EXIT
+keep=$(mktemp -d /tmp/evidence.keep.XXXXXX); cp -r evidence/. "$keep"/; trap 'cp -r "$keep"/. evidence/; rm -rf "$keep"; git -C /repo checkout -- . 2>/dev/null; git checkout -- lean/SynapModel/Generated 2>/dev/null' EXIT
 ids=${*:-$(ls seeded | grep '^C')}
 for id in $ids; do
   d=seeded/$id
